@@ -38,6 +38,10 @@ type stampRec struct {
 
 	mu      sync.Mutex
 	anomaly []string
+
+	// errAt (C33): per node 0 = handler returns nil, 1 = returns an error after
+	// scheduling its children, 2 = returns an error instead of scheduling them.
+	errAt []int
 }
 
 var spinSink atomic.Int64
@@ -86,14 +90,23 @@ func (h *stampHandler) Handle(e timing.Event) error {
 	for i := 0; i < nd.Yld; i++ {
 		runtime.Gosched()
 	}
-	for _, k := range r.kids[ne.node] {
-		r.eng.Schedule(r.p.event(k, uint64(ne.t)+r.p.Nodes[k].T))
-		r.sched[k].Store(r.clk.Add(1))
+	fail := 0
+	if r.errAt != nil {
+		fail = r.errAt[ne.node]
+	}
+	if fail != 2 {
+		for _, k := range r.kids[ne.node] {
+			r.eng.Schedule(r.p.event(k, uint64(ne.t)+r.p.Nodes[k].T))
+			r.sched[k].Store(r.clk.Add(1))
+		}
 	}
 	spin(nd.Post)
 	r.handled.Add(1)
 	r.exit[ne.node].Store(r.clk.Add(1))
 	r.running.Add(-1)
+	if fail != 0 {
+		return fmt.Errorf("handler of node %d failed", ne.node)
+	}
 	return nil
 }
 
@@ -116,8 +129,14 @@ func (h *stampHook) Func(ctx hooking.HookCtx) {
 // newStampRec builds the engine (parallel or serial), registers handlers and
 // schedules the roots from the calling goroutine.
 func newStampRec(p *program, parallel bool) *stampRec {
+	return newStampRecErr(p, parallel, nil)
+}
+
+// newStampRecErr is newStampRec with handlers that return an error at the
+// nodes marked in errAt (C33).
+func newStampRecErr(p *program, parallel bool, errAt []int) *stampRec {
 	n := len(p.Nodes)
-	r := &stampRec{p: p, kids: p.kids(),
+	r := &stampRec{p: p, kids: p.kids(), errAt: errAt,
 		count: make([]atomic.Int32, n), enter: make([]atomic.Int64, n), exit: make([]atomic.Int64, n),
 		sched: make([]atomic.Int64, n), hookB: make([]atomic.Int64, n), hookA: make([]atomic.Int64, n)}
 	var reg timing.HandlerRegistrar
